@@ -24,10 +24,13 @@ import (
 	"sort"
 	"strings"
 	"sync"
+	"sync/atomic"
 	"testing"
+	"time"
 
 	"github.com/NethermindEth/juno/consensus/starknet"
 	"github.com/NethermindEth/juno/consensus/types"
+	walt "github.com/NethermindEth/juno/consensus/types/wal"
 	"github.com/NethermindEth/juno/consensus/walstore"
 	"github.com/NethermindEth/juno/core/felt"
 	"github.com/NethermindEth/juno/db/memory"
@@ -79,6 +82,7 @@ type options struct {
 	Sweep   int   `json:"sweep"`   // for this many flushes: cut / corrupt the last log at EVERY byte of the batch
 	Flips   int   `json:"flips"`   // corruptions per byte in a sweep (1: one random bit; 2: also all bits)
 	Subsets bool  `json:"subsets"` // all subsets of unlinked-but-not-durably-removed files
+	Fat     bool  `json:"fat"`     // the ballast is ONE batch of several 32 KiB blocks (a multi-chunk record), cut at sampled offsets
 }
 
 type behaviour struct {
@@ -93,6 +97,9 @@ type input struct {
 	Interval int `json:"interval"`
 	// Selftest: flip one expected value of the first behaviour; a divergence MUST be reported.
 	Selftest bool `json:"selftest"`
+	// Concurrent: rounds of one writer (append / flush / prune) with readers calling LoadAllEntries for
+	// the writer's whole lifetime; 0 = none.
+	Concurrent int `json:"concurrent"`
 }
 
 // ---------------------------------------------------------------- concretisation
@@ -105,11 +112,13 @@ const (
 
 func realHeight(h int) types.Height { return types.Height(uint64(h) * heightStride) }
 
-// mkEntry builds the real WAL entry for the model entry (h, id): all five kinds but Start carry a
-// round, which holds the id.
+// mkEntry builds the real WAL entry for the model entry (h, id).  All five kinds and their
+// degenerate forms: proposal with / without value, votes with / without id, timeouts of every
+// step, extreme field values, and Start (which carries nothing but the height: anonymous).
 func mkEntry(h types.Height, id int) starknet.WALEntry {
 	round := types.Round(id)
-	switch id % 4 {
+	big := [4]uint64{^uint64(0), ^uint64(0) - uint64(id), 1 << 63, 0x0fffffffffffffff}
+	switch id % 8 {
 	case 0:
 		v := felt.FromUint64[starknet.Value](uint64(1000 + id))
 		return &starknet.WALProposal{
@@ -127,9 +136,52 @@ func mkEntry(h types.Height, id int) starknet.WALEntry {
 			MessageHeader: starknet.MessageHeader{Height: h, Round: round, Sender: felt.FromUint64[starknet.Address](9)},
 			ID:            &id256,
 		}
-	default:
+	case 3:
 		return &starknet.WALTimeout{Height: h, Round: round, Step: types.StepPrecommit}
+	case 4: // a proposal without a value, valid round = the round, all-ones sender
+		return &starknet.WALProposal{
+			MessageHeader: starknet.MessageHeader{Height: h, Round: round, Sender: starknet.Address(big)},
+			ValidRound:    round,
+		}
+	case 5: // extreme hash
+		hh := starknet.Hash(big)
+		return &starknet.WALPrevote{
+			MessageHeader: starknet.MessageHeader{Height: h, Round: round, Sender: starknet.Address{}},
+			ID:            &hh,
+		}
+	case 6:
+		return &starknet.WALPrecommit{
+			MessageHeader: starknet.MessageHeader{Height: h, Round: round, Sender: starknet.Address(big)},
+		}
+	default:
+		st := walt.Start(h)
+		return &st
 	}
+}
+
+const anonymous = -1 // the id of a Start entry as far as a reader can tell
+
+func anonymise(id int) int {
+	if id%8 == 7 {
+		return anonymous
+	}
+	return id
+}
+
+// normal maps the model's ids to what a reader can observe (Start entries are anonymous)
+func normal(l [][]int) [][]int {
+	out := make([][]int, len(l))
+	for i := range l {
+		out[i] = make([]int, len(l[i]))
+		for j, id := range l[i] {
+			out[i][j] = anonymise(id)
+		}
+	}
+	return out
+}
+
+func mkBallast(k int) starknet.WALEntry {
+	return &starknet.WALTimeout{Height: ballastHeight, Round: types.Round(k), Step: types.StepPropose}
 }
 
 func entryID(e starknet.WALEntry) (int, bool) {
@@ -142,8 +194,27 @@ func entryID(e starknet.WALEntry) (int, bool) {
 		return int(x.Round), true
 	case *starknet.WALTimeout:
 		return int(x.Round), true
+	case *walt.Start:
+		return anonymous, true
 	}
 	return 0, false
+}
+
+// scribble overwrites the caller's entry after it was handed to SetWALEntry: the store must have
+// taken its own copy of the struct (the driver reuses its message structs).
+func scribble(e starknet.WALEntry) {
+	switch x := e.(type) {
+	case *starknet.WALProposal:
+		x.Round, x.Height, x.ValidRound = -777, 0, -777
+	case *starknet.WALPrevote:
+		x.Round, x.Height = -777, 0
+	case *starknet.WALPrecommit:
+		x.Round, x.Height = -777, 0
+	case *starknet.WALTimeout:
+		x.Round, x.Height, x.Step = -777, 0, 0
+	case *walt.Start:
+		*x = 0
+	}
 }
 
 // ---------------------------------------------------------------- vfs wrapper
@@ -215,6 +286,8 @@ func (f *hfile) SyncData() error            { return f.Sync() }
 func (f *hfile) SyncTo(int64) (bool, error) { return true, f.Sync() }
 func (f *hfile) Fd() uintptr                { return vfs.InvalidFd }
 
+var hangInput atomic.Value // replay input of the behaviour in progress
+
 var theFS *hfs
 
 func installFS() {
@@ -239,6 +312,7 @@ type runner struct {
 	st    store
 	dead  bool // a divergence was reported: stop this behaviour
 	nBall int  // ballast entries written (must always be read back)
+	kept  []returned
 
 	sweepsDone int
 
@@ -435,16 +509,21 @@ func (r *runner) load(st store, nh int) (live [][]int, problem string) {
 		if !ok {
 			return live, fmt.Sprintf("unexpected entry type %T", e)
 		}
-		if !reflect.DeepEqual(e, mkEntry(h, id)) {
-			return live, fmt.Sprintf("entry (height %d, id %d) differs from what was written: %+v", h, id, e)
-		}
 		if h == ballastHeight {
-			if id != ball {
-				return live, fmt.Sprintf("ballast entry %d read at position %d", id, ball)
+			if !reflect.DeepEqual(e, mkBallast(ball)) {
+				return live, fmt.Sprintf("ballast entry at position %d differs from what was written: %+v", ball, e)
 			}
 			ball++
 			continue
 		}
+		want := mkEntry(h, id)
+		if id == anonymous {
+			want = mkEntry(h, 7)
+		}
+		if !reflect.DeepEqual(e, want) {
+			return live, fmt.Sprintf("entry (height %d, id %d) differs from what was written: %+v", h, id, e)
+		}
+		r.noteReturned(st, e, want)
 		if uint64(h)%heightStride != 0 || int(uint64(h)/heightStride) < 1 || int(uint64(h)/heightStride) > nh {
 			return live, fmt.Sprintf("entry at foreign height %d", h)
 		}
@@ -455,6 +534,35 @@ func (r *runner) load(st store, nh int) (live [][]int, problem string) {
 		return live, fmt.Sprintf("ballast entries: wrote %d, read %d", r.nBall, ball)
 	}
 	return live, ""
+}
+
+// noteReturned keeps the entries LoadAllEntries of the RUNNING store handed out, with what they must
+// be; recheckReturned looks at them again after later calls (results are values: an entry that
+// shares memory with something the store reuses or mutates changes after the fact).
+type returned struct {
+	got, want starknet.WALEntry
+}
+
+func (r *runner) noteReturned(st store, got, want starknet.WALEntry) {
+	if st != r.st || len(r.kept) >= 4000 {
+		return
+	}
+	r.kept = append(r.kept, returned{got, want})
+}
+
+func (r *runner) recheckReturned(stepNo int, after string) {
+	if r.dead {
+		return
+	}
+	for _, k := range r.kept {
+		if !reflect.DeepEqual(k.got, k.want) {
+			r.diverge("wal-retained:LoadAllEntries:entry-changed-after-later-calls",
+				fmt.Sprintf("an entry returned earlier by LoadAllEntries reads differently after %s: now %+v, was %+v", after, k.got, k.want),
+				stepNo, fmt.Sprintf("%+v", k.want), fmt.Sprintf("%+v", k.got))
+			return
+		}
+	}
+	r.out.Count("retained_entries_rechecked", len(r.kept))
 }
 
 func sameLive(a, b [][]int) bool {
@@ -483,6 +591,7 @@ func (r *runner) compareMem(exp [][]int, stepNo int, ctx string) {
 		r.diverge("wal-read:"+ctx+":malformed", problem, stepNo, exp, obs)
 		return
 	}
+	exp = normal(exp)
 	if !sameLive(exp, obs) {
 		r.diverge("wal-read:"+ctx+":"+classify(exp, obs),
 			"LoadAllEntries of the running store differs from the flushed batches after "+ctx, stepNo, exp, obs)
@@ -491,7 +600,18 @@ func (r *runner) compareMem(exp [][]int, stepNo int, ctx string) {
 
 // ---------------------------------------------------------------- opening images
 
+// progress / doing: a call into the real store that never returns must not turn a verdict into a
+// timeout (see the watchdog in TestWalReplay)
+var (
+	progress atomic.Int64
+	doing    atomic.Value // string
+)
+
+func enter(what string) { doing.Store(what); progress.Add(1) }
+
 func openStore(dir string) (st store, err error) {
+	enter("NewTendermintWALStore")
+	defer progress.Add(1)
 	defer func() {
 		if p := recover(); p != nil {
 			err = fmt.Errorf("panic: %v\n%s", p, debug.Stack())
@@ -600,17 +720,47 @@ func (r *runner) checkDisk(disk, ctx string, stepNo int, allowed [][][]int) {
 		return
 	}
 	obs, problem := r.load(st, len(allowed[0]))
+	probe := !strings.HasPrefix(ctx, "sweep/") && problem == "" && r.rng.Intn(10) == 0
+	if probe {
+		// the recovered store must be usable: one more entry, flushed, and two restarts later it is
+		// still there and nothing else moved (restart is a no-op on what a reader sees)
+		r.out.Count("recovery_probes", 1)
+		if err := st.SetWALEntry(mkBallast(r.nBall)); err != nil {
+			r.diverge("wal-recover:"+ctx+":store-unusable", "SetWALEntry after recovery: "+err.Error(), stepNo, "ok", err.Error())
+		} else if err := st.Flush(); err != nil {
+			r.diverge("wal-recover:"+ctx+":store-unusable", "Flush after recovery: "+err.Error(), stepNo, "ok", err.Error())
+		}
+	}
 	_ = st.Close()
+	if probe && !r.dead {
+		r.nBall++
+		for round := 1; round <= 2 && !r.dead; round++ {
+			st2, err := openStore(disk)
+			if err != nil {
+				r.diverge("wal-open-failed:"+ctx+"/restart", fmt.Sprintf("restart %d after a recovery + one flush fails: %v", round, err), stepNo, "opens", err.Error())
+				break
+			}
+			again, problem2 := r.load(st2, len(allowed[0]))
+			_ = st2.Close()
+			if problem2 != "" || !sameLive(again, obs) {
+				r.diverge("wal-restart-not-a-noop:"+ctx, fmt.Sprintf("restart %d after a recovery + one flush reads differently: %s", round, problem2), stepNo, obs, again)
+			}
+		}
+		r.nBall--
+	}
+	if r.dead {
+		return
+	}
 	if problem != "" {
 		r.diverge("wal-recover:"+ctx+":malformed", problem, stepNo, allowed, obs)
 		return
 	}
 	for _, a := range allowed {
-		if sameLive(a, obs) {
+		if sameLive(normal(a), obs) {
 			return
 		}
 	}
-	r.diverge("wal-recover:"+ctx+":"+classify(allowed[0], obs),
+	r.diverge("wal-recover:"+ctx+":"+classify(normal(allowed[0]), obs),
 		"reopening the crash image ("+ctx+") does not yield the flushed batches (optionally plus the whole batch in flight)",
 		stepNo, allowed, obs)
 }
@@ -690,7 +840,8 @@ func (r *runner) primeIfCleanupAhead(from int, modelPruned int) {
 		base++
 		must(r.st.DeleteWALEntries(base))
 		if err := r.st.Flush(); err != nil {
-			panic("wal engine: filler flush failed: " + err.Error())
+			r.diverge("wal-flush-result:filler-prune:want-ok", "Flush of a single prune record failed: "+err.Error(), from, "ok", err.Error())
+			return
 		}
 	}
 	r.lastFiller = base
@@ -699,7 +850,61 @@ func (r *runner) primeIfCleanupAhead(from int, modelPruned int) {
 
 // ---------------------------------------------------------------- ballast
 
+// writeFatBallast: ONE batch of several 32 KiB blocks = one multi-chunk pebble record, the shape a
+// long height produces.  Its image at the fsync is cut inside every chunk and around every block
+// boundary: the batch must be all there or all gone.
+func (r *runner) writeFatBallast() {
+	const n = 2600 // x 30 bytes: more than two 32 KiB blocks
+	for k := 0; k < n; k++ {
+		must(r.st.SetWALEntry(mkBallast(k)))
+	}
+	r.dropImages()
+	r.file, r.preSize, r.postSize = "", 0, 0
+	r.armed = true
+	enter("Flush (fat batch)")
+	err := r.st.Flush()
+	progress.Add(1)
+	r.armed = false
+	if err != nil {
+		r.diverge("wal-flush-result:fat-batch:want-ok", "Flush of one large batch failed: "+err.Error(), 0, "ok", err.Error())
+		return
+	}
+	img, ok := r.imgs["sync"]
+	if !ok || r.postSize < 2*32768 {
+		r.diverge("wal-step-missing:flush:no-fsync-of-the-batch", fmt.Sprintf("no fsync image of the large batch (size %d)", r.postSize), 0, "fsync", "none")
+		return
+	}
+	none := emptyLive(len(r.b.Steps[0].Live))
+	var cuts []int64
+	for b := int64(32768); b < r.postSize; b += 32768 {
+		for _, d := range []int64{-12, -1, 0, 1, 11} {
+			cuts = append(cuts, b+d)
+		}
+	}
+	for k := 0; k < 6; k++ {
+		cuts = append(cuts, r.preSize+r.rng.Int63n(r.strictEnd()-r.preSize))
+	}
+	for _, c := range cuts {
+		if c <= r.preSize || c >= r.strictEnd() {
+			continue
+		}
+		r.nBall = 0
+		r.checkImage(img, fmt.Sprintf("fat-batch/cut@block%d%+d", (c+16)/32768, c-((c+16)/32768)*32768), 0, [][][]int{none}, truncateLog(r.file, c))
+		if c%2 == 0 {
+			r.nBall = 0
+			r.checkImage(img, "fat-batch/flip", 0, [][][]int{none}, flipByte(r.file, c, byte(1<<r.rng.Intn(8))))
+		}
+	}
+	r.nBall = n
+	r.checkImage(img, "fat-batch/whole", 0, [][][]int{none})
+	r.out.Count("fat_batches", 1)
+}
+
 func (r *runner) writeBallast(target int) {
+	if r.b.Opts.Fat && len(r.b.Steps) > 0 {
+		r.writeFatBallast()
+		return
+	}
 	for {
 		var size int64
 		es, _ := os.ReadDir(r.walDir())
@@ -721,7 +926,7 @@ func (r *runner) writeBallast(target int) {
 			n = 1
 		}
 		for k := 0; k < n; k++ {
-			must(r.st.SetWALEntry(mkEntry(ballastHeight, r.nBall)))
+			must(r.st.SetWALEntry(mkBallast(r.nBall)))
 			r.nBall++
 		}
 		must(r.st.Flush())
@@ -776,9 +981,11 @@ func (r *runner) run() (steps int) {
 		s := ss[i]
 		switch s.A.Name {
 		case "Append":
-			if err := r.st.SetWALEntry(mkEntry(realHeight(s.A.H), s.A.ID)); err != nil {
+			mine := mkEntry(realHeight(s.A.H), s.A.ID)
+			if err := r.st.SetWALEntry(mine); err != nil {
 				r.diverge("wal-append-error", "SetWALEntry failed: "+err.Error(), i, "ok", err.Error())
 			}
+			scribble(mine) // the caller reuses its struct
 			r.compareMem(s.Live, i, "Append")
 			i++
 		case "Prune":
@@ -816,6 +1023,9 @@ func (r *runner) run() (steps int) {
 		if i > 0 && ss[i-1].Mode == "up" && ss[i-1].Pc == "idle" {
 			prevLive = ss[i-1].Live
 		}
+		if i > 0 && (ss[i-1].A.Name != "Append" || i%4 == 0) {
+			r.recheckReturned(i-1, ss[i-1].A.Name)
+		}
 	}
 	return i
 }
@@ -833,6 +1043,8 @@ func (r *runner) call(i, j int, before [][]int) {
 	first := ss[i]
 	isClose := first.A.Name == "Close"
 	do := func() error {
+		enter(first.A.Name + " (" + first.A.Outcome + ")")
+		defer progress.Add(1)
 		if isClose {
 			err := r.st.Close()
 			return err
@@ -875,7 +1087,12 @@ func (r *runner) call(i, j int, before [][]int) {
 	r.armed = false
 	setHook(nil)
 	if r.failWrite || r.failSync {
-		panic("wal engine: injected fault was not consumed")
+		// the specification's Flush writes the batch and fsyncs it; this one returned without doing so
+		r.failWrite, r.failSync = false, false
+		r.diverge(fmt.Sprintf("wal-step-missing:%s:batch-not-written-or-not-fsynced", strings.ToLower(first.A.Name)),
+			fmt.Sprintf("%s returned (%v) without writing / fsyncing the pending batch: the injected %s fault was never reached",
+				first.A.Name, err, outcomeOf(first, has)), i, "write+fsync", "none")
+		return
 	}
 	r.out.Count("flushes", 1)
 	if !committed {
@@ -901,7 +1118,9 @@ func (r *runner) call(i, j int, before [][]int) {
 	}
 	syncImg, ok := r.imgs["sync"]
 	if !ok && first.A.Outcome == "ok" {
-		panic("wal engine: no image at the fsync of the batch")
+		r.diverge(fmt.Sprintf("wal-step-missing:%s:no-fsync-of-the-batch", strings.ToLower(first.A.Name)),
+			fmt.Sprintf("%s returned (%v) and never fsynced the log it wrote the batch to", first.A.Name, err), i, "fsync", "none")
+		return
 	}
 	if ok {
 		r.checkImage(syncImg, "batch-written/whole", i, [][][]int{after})
@@ -923,7 +1142,9 @@ func (r *runner) call(i, j int, before [][]int) {
 			if img, ok := r.imgs[name]; ok {
 				r.checkImage(img, "cleanup/"+name, i, [][][]int{after})
 			} else {
-				panic("wal engine: no image at " + name)
+				r.diverge("wal-step-missing:cleanup:"+name,
+					"the prune cleanup is due (the specification takes it) but the real Flush never reached "+name, i, name, "none")
+				return
 			}
 		}
 		if img, ok := r.imgs["wm-tmp-written"]; ok { // a torn temporary watermark is never read
@@ -1011,7 +1232,9 @@ func (r *runner) call(i, j int, before [][]int) {
 		panic("wal engine: crash at unknown point " + c.At)
 	}
 	if img == "" {
-		panic("wal engine: no image for a crash at " + c.At)
+		r.diverge("wal-step-missing:crash-point:"+c.At,
+			"the specification crashes at "+c.At+" but the real call never reached that point", i, c.At, "none")
+		return
 	}
 	if c.At != "crm" {
 		mods = append(mods, restoreFromGrave(nil))
@@ -1130,6 +1353,196 @@ func (r *runner) sweep(syncImg string, stepNo int, before, after [][]int) {
 	r.out.Count("sweeps", 1)
 }
 
+// ---------------------------------------------------------------- concurrent round
+
+// concurrentRound: the store is documented and built (mutex) for use from several goroutines: one
+// writer appends a batch per height, prunes now and then in the same batch, and flushes; readers
+// call LoadAllEntries for the writer's WHOLE lifetime.  The monitor is the specification's
+// ReadsFlushed under linearisation: every reading is the view of a PREFIX k of the flushed batches
+// (heights (pruned(k), k], every batch whole and in order: never part of a batch), with
+// flushes-completed-at-call-start <= k <= flushes-started-at-call-end, and k never decreases for one
+// reader.  Entries handed out earlier are looked at again at the end (results are values).
+func concurrentRound(out *vh.Result, root string, round int, seed int64) {
+	const (
+		batches = 48
+		perB    = 64 // long enough that a non-atomic index update is observable
+		readers = 4
+	)
+	input := vh.J{"behaviours": []behaviour{}, "interval": 2, "concurrent": 1}
+	report := func(what, detail string, exp, obs any) {
+		out.Diverge(vh.Divergence{Key: "wal-concurrent:" + what,
+			What:  fmt.Sprintf("1 writer (%d batches of %d entries, a prune every 6th) + %d readers for its whole lifetime: %s", batches, perB, readers, detail),
+			Input: input, Step: round, Expected: exp, Observed: obs})
+	}
+	dir := filepath.Join(root, fmt.Sprintf("conc%03d", round))
+	must(os.MkdirAll(dir, 0o755))
+	defer os.RemoveAll(dir)
+	st, err := openStore(dir)
+	if err != nil {
+		report("open-failed", err.Error(), "opens", err.Error())
+		return
+	}
+	ids := func(b int) []int {
+		var l []int
+		for j := 0; len(l) < perB; j++ {
+			if id := b*1000 + j; id%8 != 7 {
+				l = append(l, id)
+			}
+		}
+		return l
+	}
+	prunedAt := func(k int) int { // what prefix k has pruned
+		if b := k - k%6; b >= 6 {
+			return b - 3
+		}
+		return 0
+	}
+	var started, completed atomic.Int64
+	var done atomic.Bool
+	var wg sync.WaitGroup
+	guardG := func(name string, f func()) {
+		wg.Add(1)
+		go func() {
+			defer wg.Done()
+			defer func() {
+				if p := recover(); p != nil {
+					report("panic", fmt.Sprintf("%s: %v | %s", name, p, firstJuno(string(debug.Stack()))), "no failure", "panic")
+				}
+			}()
+			f()
+		}()
+	}
+	guardG("writer", func() {
+		defer done.Store(true)
+		for b := 1; b <= batches; b++ {
+			started.Store(int64(b))
+			for _, id := range ids(b) {
+				if err := st.SetWALEntry(mkEntry(realHeight(b), id)); err != nil {
+					report("writer-error", "SetWALEntry: "+err.Error(), "ok", err.Error())
+					return
+				}
+			}
+			if b%6 == 0 {
+				if err := st.DeleteWALEntries(realHeight(b - 3)); err != nil {
+					report("writer-error", "DeleteWALEntries: "+err.Error(), "ok", err.Error())
+					return
+				}
+			}
+			enter("Flush (concurrent round)")
+			if err := st.Flush(); err != nil {
+				report("writer-error", "Flush: "+err.Error(), "ok", err.Error())
+				return
+			}
+			completed.Store(int64(b))
+		}
+	})
+	for ri := 0; ri < readers; ri++ {
+		ri := ri
+		guardG(fmt.Sprintf("reader %d", ri), func() {
+			var kept []returned
+			lastK, reads := 0, 0
+			for final := false; !final; {
+				final = done.Load() // one more reading after the writer finished
+				c0 := int(completed.Load())
+				byH := map[int][]int{}
+				var order []int
+				bad := ""
+				for e, err := range st.LoadAllEntries() {
+					if err != nil {
+						bad = "LoadAllEntries error: " + err.Error()
+						break
+					}
+					id, ok := entryID(e)
+					h := int(uint64(e.GetHeight()) / heightStride)
+					if !ok || !reflect.DeepEqual(e, mkEntry(realHeight(h), id)) {
+						bad = fmt.Sprintf("entry differs from what was written: %+v", e)
+						break
+					}
+					if len(byH[h]) == 0 {
+						order = append(order, h)
+					}
+					byH[h] = append(byH[h], id)
+					if len(kept) < 300 && reads%7 == 0 {
+						kept = append(kept, returned{e, mkEntry(realHeight(h), id)})
+					}
+				}
+				s1 := int(started.Load())
+				reads++
+				progress.Add(1)
+				if bad != "" {
+					report("entry-corrupted", bad, "entries as written", bad)
+					return
+				}
+				k := 0
+				if len(order) > 0 {
+					k = order[len(order)-1]
+				}
+				for i, h := range order {
+					if i > 0 && order[i-1] >= h {
+						report("heights-not-ascending", fmt.Sprint(order), "ascending", order)
+						return
+					}
+					if !reflect.DeepEqual(byH[h], ids(h)) {
+						report("partial-batch", fmt.Sprintf("height %d shows %d of its %d entries (or out of order): a batch must be visible whole or not at all", h, len(byH[h]), perB), ids(h), byH[h])
+						return
+					}
+				}
+				// an empty reading is the view of prefix 0, or of a prefix whose own batch... never: batch k holds height k
+				if k < c0 || k > s1 {
+					report("stale-or-future-read", fmt.Sprintf("reading shows batches up to %d; %d flushes had returned before the call, %d had started when it ended", k, c0, s1), fmt.Sprintf("%d..%d", c0, s1), k)
+					return
+				}
+				var want []int
+				for h := prunedAt(k) + 1; h <= k; h++ {
+					want = append(want, h)
+				}
+				if !reflect.DeepEqual(order, want) && !(len(order) == 0 && len(want) == 0) {
+					report("wrong-heights", fmt.Sprintf("prefix %d must show heights %v, shows %v", k, want, order), want, order)
+					return
+				}
+				if k < lastK {
+					report("not-monotone", fmt.Sprintf("reader %d saw prefix %d after prefix %d", ri, k, lastK), lastK, k)
+					return
+				}
+				lastK = k
+			}
+			for _, kv := range kept {
+				if !reflect.DeepEqual(kv.got, kv.want) {
+					report("retained-entry-changed", fmt.Sprintf("an entry returned earlier now reads %+v", kv.got), fmt.Sprintf("%+v", kv.want), fmt.Sprintf("%+v", kv.got))
+					return
+				}
+			}
+			out.Count("concurrent_reads", reads)
+		})
+	}
+	wg.Wait()
+	_ = st.Close()
+	// and what is on disk is the last prefix
+	st2, err := openStore(dir)
+	if err != nil {
+		report("reopen-failed", err.Error(), "opens", err.Error())
+		return
+	}
+	n := 0
+	for range st2.LoadAllEntries() {
+		n++
+	}
+	_ = st2.Close()
+	if want := (batches - prunedAt(batches)) * perB; n != want && len(out.Divergences) == 0 {
+		report("reopen-count", fmt.Sprintf("%d entries after reopening, want %d", n, want), want, n)
+	}
+	out.Count("concurrent_rounds", 1)
+}
+
+func firstJuno(stack string) string {
+	for _, l := range strings.Split(stack, "\n") {
+		if strings.Contains(l, "juno/consensus/walstore") {
+			return strings.TrimSpace(l)
+		}
+	}
+	return ""
+}
+
 // ---------------------------------------------------------------- entry point
 
 func TestWalReplay(t *testing.T) {
@@ -1168,6 +1581,25 @@ func TestWalReplay(t *testing.T) {
 			t.Fatal("selftest: no step to corrupt")
 		}
 	}
+	go func() { // watchdog
+		last, since := int64(-1), time.Now()
+		for {
+			time.Sleep(5 * time.Second)
+			if p := progress.Load(); p != last {
+				last, since = p, time.Now()
+				continue
+			}
+			if time.Since(since) < 3*time.Minute {
+				continue
+			}
+			what, _ := doing.Load().(string)
+			out.Diverge(vh.Divergence{Key: "wal-hang:" + strings.SplitN(what, " ", 2)[0],
+				What:  "a call into the WAL store did not return for 3 minutes: " + what,
+				Input: hangInput.Load(), Expected: "returns", Observed: "hangs"})
+			_ = out.Write()
+			os.Exit(1)
+		}
+	}()
 	base, err := os.MkdirTemp(vh.Scratch(), "wal.")
 	if err != nil {
 		t.Fatal(err)
@@ -1183,10 +1615,17 @@ func TestWalReplay(t *testing.T) {
 			rng:  rand.New(rand.NewSource(b.Opts.RSeed)),
 			root: filepath.Join(base, fmt.Sprintf("b%05d", bi))}
 		must(os.MkdirAll(r.root, 0o755))
+		hangInput.Store(r.replayInput())
 		total += r.run()
 		if bi < 2 {
 			out.Sample(vh.J{"behaviour": bi, "steps": len(b.Steps), "first_steps": b.Steps[:min(8, len(b.Steps))]})
 		}
+	}
+	theFS.mu.Lock()
+	theFS.r = nil
+	theFS.mu.Unlock()
+	for round := 0; round < in.Concurrent; round++ {
+		concurrentRound(out, base, round, vh.Seed())
 	}
 	out.Count("hook", map[bool]int{true: 1, false: 0}[hookAvailable])
 	out.Done(len(in.Behaviours), total)
